@@ -4,7 +4,9 @@ Schedule-driven shadow-model monitor.  The real Axi2Reg / Reg2Axi (py4hw.emulati
 alone under a fresh HWSystem with every control, peer and data wire undriven; per cycle the harness pokes the
 wires with Wire.put from a generated schedule, runs Simulator.propagateAll(), judges the combinational
 clauses, runs Simulator.clk(1) and judges the sequential clauses against a shadow model that is written from
-the property statement (not from the structural code).
+the property statement (not from the structural code).  In 30% of the schedules the adapter is added to a
+system that already has a simulator (incremental build, at the top or inside existing nested blocks) and the
+simulator is refreshed with HWSystem.getSimulator() before the schedule runs.
 
 Environment assumption (the only one): ap_done is pulsed only in a cycle where, since the last ap_start (and
 the last ap_reset), at least one beat has completed and no beat is pending (Reg2Axi: tvalid low).  The
@@ -18,7 +20,8 @@ from .common import muted, rng, stable_hash
 LEVEL = 'exploration'
 RULE = ('a case is one schedule for one adapter: (adapter in {Axi2Reg, Reg2Axi}, register width W in {8,32,64} plus {12,33} for the '
         'ceil in the KEEP mask, stream width in {W rounded up to bytes, 64, 128}, 200 (quick) / 400-1000 (thorough) cycles of '
-        'ap_start/ap_reset/ap_done-wish/load_outs/peer VALID or READY/data); schedules are concatenations of phases (idle, '
+        'ap_start/ap_reset/ap_done-wish/load_outs/peer VALID or READY/data, and a build history: adapter alone before the first getSimulator(), '
+        'or (30%) added directly / one / two levels down to a system whose simulator already exists and has run, then getSimulator() again); schedules are concatenations of phases (idle, '
         'back-to-back burst, back-pressure stall, control storm, load storm, random with per-schedule rates) so that bursts, stalls, '
         'load-while-pending and reset/done mid-transfer occur; ap_done is granted only under the environment assumption. Every cycle '
         'evaluates all clauses of the adapter (one evaluation per cycle). Non-trivial = the schedule contains back-pressure while '
@@ -73,7 +76,11 @@ def gen_schedule(rnd, dut, W, ncyc):
             data = rnd.choice(pool) if rnd.random() < 0.25 else rnd.getrandbits(width)
             cyc.append([int(rnd.random() < p['start']), int(rnd.random() < p['reset']), int(rnd.random() < p['done']),
                         int(rnd.random() < p['load']), int(rnd.random() < p['hs']), data])
-    return dict(dut=dut, W=W, dw=dw, cycles=cyc[:ncyc])
+    hist = None
+    if rnd.random() < 0.3:
+        # incremental build: the adapter joins a system whose simulator already exists
+        hist = dict(depth=rnd.choice([0, 1, 1, 2, 2]), warm=rnd.choice([0, 1, 3]), pre=rnd.random() < 0.6)
+    return dict(dut=dut, W=W, dw=dw, cycles=cyc[:ncyc], hist=hist)
 
 
 # --------------------------------------------------------------------------- the two monitors
@@ -88,19 +95,44 @@ def _ctx(**kw):
     return '+'.join(k for k, v in kw.items() if v) or 'none'
 
 
-def _build(dut, W, dw):
+def _build(dut, W, dw, hist=None):
+    """hist=None: the adapter is the only block, built before the first getSimulator().
+    hist=dict(depth, warm, pre): incremental build -- part of the system exists and has been simulated
+    (getSimulator() + warm cycles) before the adapter is instantiated directly under the system (depth 0),
+    inside an existing kernel block (1) or inside a block of that kernel (2); the simulator is then refreshed
+    the documented way, with HWSystem.getSimulator()."""
     import py4hw
     import py4hw.logic.bus.axi as axi
     from py4hw.emulation.vitiswrapping import Axi2Reg, Reg2Axi
     hw = py4hw.HWSystem()
     st = axi.AXI4StreamInterface(hw, 's', dw, has_tlast=True, has_tkeep=True)
-    s = dict(start=hw.wire('start'), reset=hw.wire('reset'), done=hw.wire('done'), active=hw.wire('active'))
+    s = dict(start=hw.wire('start'), reset=hw.wire('reset'), done=hw.wire('done'))
+    host = hw
+    if hist:
+        kernel = py4hw.Logic(hw, 'kernel')
+        host = hw if hist['depth'] == 0 else kernel
+        if hist['depth'] == 2:
+            host = py4hw.Logic(kernel, 'extra')
+        if hist['pre']:
+            # the other side of the kernel already exists and has been running
+            st0 = axi.AXI4StreamInterface(hw, 's0', 64, has_tlast=True, has_tkeep=True)
+            k = kernel
+            if dut == 'axi2reg':
+                Reg2Axi(k, 'pre', s['start'], s['reset'], s['done'], k.wire('pre_load'), k.wire('pre_in', 64), st0, k.wire('pre_sent'), k.wire('pre_active'))
+            else:
+                Axi2Reg(k, 'pre', s['start'], s['reset'], s['done'], st0, k.wire('pre_q', 64), k.wire('pre_loaded'), k.wire('pre_active'))
+        sim0 = hw.getSimulator()
+        if hist['warm']:
+            s['start'].put(1)
+            sim0.clk(hist['warm'])
+            s['start'].put(0)
+    s['active'] = host.wire('active')
     if dut == 'axi2reg':
-        s.update(q=hw.wire('q', W), loaded=hw.wire('loaded'))
-        Axi2Reg(hw, 'dut', s['start'], s['reset'], s['done'], st, s['q'], s['loaded'], s['active'])
+        s.update(q=host.wire('q', W), loaded=host.wire('loaded'))
+        Axi2Reg(host, 'dut', s['start'], s['reset'], s['done'], st, s['q'], s['loaded'], s['active'])
     else:
-        s.update(load=hw.wire('load'), reg_in=hw.wire('reg_in', W), sent=hw.wire('sent'))
-        Reg2Axi(hw, 'dut', s['start'], s['reset'], s['done'], s['load'], s['reg_in'], st, s['sent'], s['active'])
+        s.update(load=host.wire('load'), reg_in=host.wire('reg_in', W), sent=host.wire('sent'))
+        Reg2Axi(host, 'dut', s['start'], s['reset'], s['done'], s['load'], s['reg_in'], st, s['sent'], s['active'])
     sim = hw.getSimulator()
     return sim, s, st
 
@@ -108,7 +140,7 @@ def _build(dut, W, dw):
 def run_axi2reg(plan, ev):
     """Returns the list of inputs actually applied (ap_done after gating). Raises Bad at the first violated clause."""
     W = plan['W']
-    sim, s, st = _build('axi2reg', W, plan['dw'])
+    sim, s, st = _build('axi2reg', W, plan['dw'], plan.get('hist'))
     mW = (1 << W) - 1
     m_active = m_loaded = m_q = 0
     completed = 0
@@ -187,7 +219,7 @@ def _shadow_cmp(t, cycles, active, m_active, loaded, m_loaded, q, m_q):
 
 def run_reg2axi(plan, ev):
     W, dw = plan['W'], plan['dw']
-    sim, s, st = _build('reg2axi', W, dw)
+    sim, s, st = _build('reg2axi', W, dw, plan.get('hist'))
     mW = (1 << W) - 1
     keep_mask = (1 << math.ceil(W / 8)) - 1          # documented: ceil(W/8) valid bytes in the lower bits
     m_active = 0
@@ -338,6 +370,9 @@ def run_check(run, tier, seed, shard):
         done_jobs += 1
         run.ev(ev['cycles'])
         run.count('schedules_' + dut)
+        if plan.get('hist'):
+            run.count('schedules_adapter_added_to_running_system')
+            run.count('schedules_adapter_added_at_depth_%d' % plan['hist']['depth'])
         per_w['%s_W%d_dw%d' % (dut, W, plan['dw'])] = per_w.get('%s_W%d_dw%d' % (dut, W, plan['dw']), 0) + 1
         for a, v in ev.items():
             if not a.startswith('ctx_'):
@@ -351,6 +386,8 @@ def run_check(run, tier, seed, shard):
     run.extra['reg2axi_events'] = dict(tot['reg2axi'])
     run.extra['schedules_per_configuration'] = per_w
     run.extra['peer_accepts_while_inactive'] = int(tot['reg2axi']['peer_accepts_while_inactive'])
+    if shard is None and not run.violations and not run.counters.get('schedules_adapter_added_to_running_system'):
+        run.inconclusive.append('no schedule with the adapter added to a running system')
     if shard is None and not run.violations:
         need = {'axi2reg': ('beats', 'beat_and_clear_same_cycle', 'reset_while_active', 'done_while_active', 'restart', 'back_to_back_beats'),
                 'reg2axi': ('beats_accepted', 'valid_hold_checked', 'load_while_pending', 'sent_rises', 'sent_falls', 'reset_while_tvalid',
@@ -362,6 +399,8 @@ def run_check(run, tier, seed, shard):
 
 
 def post_merge(run, tier, seed):
+    if not run.violations and not run.counters.get('schedules_adapter_added_to_running_system'):
+        run.inconclusive.append('no schedule with the adapter added to a running system')
     for dut, keys in (('axi2reg_events', ('beats', 'beat_and_clear_same_cycle')), ('reg2axi_events', ('beats_accepted', 'valid_hold_checked', 'sent_rises'))):
         for a in keys:
             if not run.violations and not run.extra.get(dut, {}).get(a):
